@@ -169,7 +169,9 @@ def run(ck, F, E):
         return
     seen = G.reachable([root.path])
     fns = [p for p in seen if "Evaluator::" in p]
-    P = progress.Progress(F, fns)
+    T = panics.Taint(F, [b.path for b in F.bodies.values() if b.crate == "abasic_core" and b.is_pub and
+                         b.self_adt == "abasic_core::interpreter::Interpreter"])
+    P = progress.Progress(F, fns, taint=T)
     ck.note("must_consume", sorted(k.split("::")[-1] for k, v in P.must.items() if v))
     n_cursor = 0
     classes = {}
